@@ -117,6 +117,17 @@ claim("C19", "static: delegation table over the RPC set enumerated from the gene
 
 NOT_APPLICABLE_PENDING = "rules for this property are not built yet (work in progress, see DESIGN.md §2); nothing is claimed until the check exists"
 
+ALSO = {
+ "C01": " Also (shared rules): a successful transactional Put/Delete has buffered exactly that operation; immutable memtables leave the pool only into the flush path; the buffered log writer is never replaced without a flush and fragment writer/reader agree on chunk boundaries.",
+ "C02": " Also: no read after the first of a record can leave readRecord as a clean io.EOF; the batch pre-validation uses writeRecord's own size formula; fragment writer/reader agree on chunk boundaries.",
+ "C03": " Also: a successful transactional Put/Delete has buffered exactly that operation; a log file is reused for appending only behind a clean tail; the retry wrapper's decision table (success only after a successful call; error after exhausted retries).",
+ "C04": " Also: a successful transactional Put/Delete has buffered exactly that operation; batch entries are stamped with the number the log assigned; an empty value is never turned into a deletion marker.",
+ "C06": " Also: the retry wrapper's decision table; immutable memtables leave the pool only into the flush path; the sequence counter is handed over at rotation.",
+ "C07": " Also: the database-wide transaction lock is released on every exit of Commit/Rollback after the active swap.",
+ "C13": " Also: Compress/Decompress handle the same codecs with inverse library calls; per entry type the applier performs the primary's operation with the entry's own key and value.",
+ "C14": " Also (shared with C13): the replica's cursor discipline.",
+}
+
 def main():
     props = [json.loads(l) for l in open(os.path.join(HERE, "properties.jsonl"))]
     checks, na = [], []
@@ -131,7 +142,7 @@ def main():
                 "evidence_file": f"/verif/evidence/{pid}.json",
                 "replay_cmd_template": f"./check {pid} --replay {{path}}",
                 "engine": "kvet",
-                "level_claimed": {"category": "other", "text": LEVEL_TEXT + "Decided here: " + c["decided"], "design_ref": c["ref"]},
+                "level_claimed": {"category": "other", "text": LEVEL_TEXT + "Decided here: " + c["decided"] + ALSO.get(pid, ""), "design_ref": c["ref"]},
                 "level_note": NOTE + c["not_decided"],
                 "technique": c["technique"],
             })
@@ -149,7 +160,7 @@ def main():
         },
         "engines": [{"name": "kvet", "path": "/verif/kvet", "serves_properties": sorted(CLAIMS), "kind_free_text": "repo-specific static analyser (Go; go/packages + go/ssa + VTA call graph): path, lockset, order-table, value-flow, who-may-call, codec-agreement and exhaustiveness rules"}],
         "checks": checks,
-        "notes": "Technique family: static analysis only. No check executes kevo code. Fixed defects and open known findings: /verif/known_findings.json; rules and limits: /verif/DESIGN.md.",
+        "notes": "Technique family: static analysis only. No check executes kevo code. The thorough tier adds the variant corpus self-test of the checker (seeded breaking changes must be flagged, behaviour-preserving refactorings must not change the verdict; applied to scratch copies of the current tree). Fixed defects and open known findings: /verif/known_findings.json; rules and limits: /verif/DESIGN.md.",
         "not_applicable": na,
     }
     json.dump(m, open(os.path.join(HERE, "MANIFEST.json"), "w"), indent=1)
